@@ -51,12 +51,23 @@ def sharing_forms_model(rng, target):
     {"name": "two", "params": ["r", "A", "B"], "expr": ["+", ["call", "core", [["var", "r"], ["var", "A"], ["num", 0.3]]], ["call", "core", [["var", "r"], ["var", "B"], ["num", 0.7]]]], "breaks": []},
     {"name": "mix", "params": ["rij", "A"], "expr": ["-", ["call", "two", [["var", "rij"], ["var", "A"], ["num", 2.0]]], ["call", "core", [["*", ["num", 2.0], ["var", "rij"]], ["num", 5.0], ["var", "A"]]]], "breaks": []},
   ]
+  conv = False
+  if rng.random() < 0.6:
+    # a formula may assign to its own parameters (unit conversion on the way in): 'rho := rho*0.529177; A*exp(-r/rho)'.
+    # Every call starts again from the arguments it was given - also when these are the same as in the call before,
+    # which is the case for a form that one entry uses on its own, row after row
+    forms[0]["expr"] = ["assign_then", "rho", ["*", ["var", "rho"], ["num", 0.529177]], forms[0]["expr"]]
+    forms.append({"name": "conv", "params": ["r", "A", "rho"], "breaks": [],
+                  "expr": ["assign_then", "rho", ["*", ["var", "rho"], ["num", 0.529177]], ["*", ["var", "A"], ["call", "exp", [["neg", ["/", ["var", "r"], ["var", "rho"]]]]]]]})
+    conv = True
   if rng.random() < 0.75:
     # formulas spelling their parameters in another case than the signature (exprtk symbols are case-insensitive):
     # every occurrence, so that a binding keyed on the spelling has nothing to hold on to
     def swap(e):
       if isinstance(e, list) and e and e[0] == "var":
         return ["var", e[1].swapcase()]
+      if isinstance(e, list) and e and e[0] == "assign_then":
+        return ["assign_then", e[1].swapcase(), swap(e[2]), swap(e[3])]
       return [swap(x) if isinstance(x, list) else x for x in e] if isinstance(e, list) else e
     for f in forms:
       f["expr"] = swap(f["expr"])
@@ -72,6 +83,8 @@ def sharing_forms_model(rng, target):
       node = {"k": "custom", "name": name, "args": args}
       if k % 2:
         node = {"k": "sum", "a": [node, {"k": "custom", "name": "core", "args": [spec.rfloat(rng, 1, 9), spec.rfloat(rng, 0.2, 0.9)]}]}
+      if conv and k == 4:
+        node = {"k": "custom", "name": "conv", "args": [spec.rfloat(rng, 5.0, 50.0), spec.rfloat(rng, 0.5, 2.0)]}
       pair.append([sp[i], sp[j], node])
   return {"type": "pair", "target": target, "tab": {"nr": nr, "cutoff": 5.0}, "forms": forms, "tables": [], "pair": pair}
 
